@@ -382,21 +382,38 @@ def run_schedule(sched: dict, fallback_base: str, repo: str, result_cb) -> None:
         S.sim = 0
         escaped = None
         try:
-            args = cli("fortls").parse_args(sim.realise(list(sched.get("argv", []))))
-            conn = JSONRPC2Connection(
-                ReadWriter(io.BufferedReader(raw, buffer_size=sched.get("bufsize", 8192)), writer)
-            )
-            server = ls.LangServer(conn=conn, settings=vars(args))
-            S.sim = 1
-            if sched.get("release_version"):
-                from packaging import version as _v
+            # the real entry point: argument parsing, stream wiring and LangServer construction
+            # are fortls.main()'s own; the harness only learns of the server object when main()
+            # calls its run()
+            import fortls as _fortls
 
-                server._version = _v.parse(sched["release_version"])
-            driver.server = server
-            ctx["server"] = server
-            _wrap_handle(server, driver)
-            S.sim = 0
-            server.run()
+            if "ls_run" not in sim._orig:
+                sim._orig["ls_run"] = ls.LangServer.run
+
+            def _run_hook(server):
+                S.sim = 1
+                if sched.get("release_version"):
+                    from packaging import version as _v
+
+                    server._version = _v.parse(sched["release_version"])
+                driver.server = server
+                ctx["server"] = server
+                _wrap_handle(server, driver)
+                S.sim = 0
+                return sim._orig["ls_run"](server)
+
+            ls.LangServer.run = _run_hook
+            sim.STDIO[0] = raw
+            sim.STDIO[1] = writer
+            sys.argv = ["fortls"] + sim.realise(list(sched.get("argv", [])))
+            sys.stdin = sim.SimStdin(raw, sched.get("bufsize", 8192))
+            sys.stdout = sim.SimStdout(writer)
+            try:
+                _fortls.main()
+            finally:
+                S.sim += 1
+                sys.stdin, sys.stdout = sys.__stdin__, sys.__stdout__
+                S.sim -= 1
         except Invalid:
             raise
         except SystemExit as e:
